@@ -14,7 +14,7 @@ for line in open(sys.argv[1]):
     seed = d["seed"].rstrip("/")
     prop = d.get("property") or [p for p in seed.split("/") if p.startswith("C") and p[1:3].isdigit()][0][:3]
     name = os.path.basename(seed)
-    if not name.startswith("C"):
+    if len(name) == 1 or not name.startswith("C"):
         name = f"{prop}-{name}"
     status = None
     if not d.get("applies"):
